@@ -65,7 +65,7 @@ def run_driver(exe, first, count, heavy, env=None):
 
 def run(ctx):
     exe = build_harness(ctx)
-    n = ctx.scale(240, 100000)
+    n = ctx.scale(240, 40000)
     base = 1 + (ctx.seed * 1000003) % (2 ** 30)
     chunks = []
     per = max(50, n // 16)
